@@ -18,21 +18,23 @@ ASSUMPTIONS = [
     "lean/Ufw/Model/Sx.lean is a hand transcription of the reader in src/sx.c tied to the code by the correspondence run",
     "<ctype.h> classification in the C locale; NUL octets inside the input and integers >= 2^64 are outside the statement's domain "
     "(the model reproduces what the code does with them: NUL counts as symbol character, values wrap modulo 2^64)",
-    "allocation failures (the reader exits the process) and leaks are not expressible in the functional model: leak freedom is observed by LeakSanitizer",
+    "allocation failures (the reader exits the process) are outside the model; the heap is modelled as a count of allocations (Model/SxHeap: node, symbol string, "
+    "pair cell), tied to the code by a ledger in the harness through which every malloc/calloc/free of src/sx.c passes",
 ]
-TRUSTED = ["correspondence harness harness/h_sx.c + tools/lib/vf.py (status, the complete tree, position on success)"]
+TRUSTED = ["correspondence harness harness/h_sx.c + tools/lib/vf.py (status, the complete tree, position on success, allocations made / released by the reader / released by sx_destroy)"]
 DESIGN_REF = "DESIGN.md section 8, C20"
-TECHNIQUE = "Lean 4 proof by induction over renderings (parse of any rendering of a tree, with arbitrary inter-token white space, returns the tree and the position just past it; bounds; termination) + differential correspondence on enumerated trees/strings in exact-size buffers"
+TECHNIQUE = "Lean 4 proof by induction over renderings (parse of any rendering of a tree, with arbitrary inter-token white space, returns the tree and the position just past it; bounds; termination) and over the heap view of the reader (every allocation is part of the returned tree or released: no leak) + differential correspondence on enumerated trees/strings in exact-size buffers"
 LEVEL_TEXT = ("Machine-checked proof over the Lean model of the reader: for every tree of symbols, unsigned integers (decimal or #x hex in either case) and nested proper lists "
               "(empty ones included) and every admissible choice of inter-token white space the reader returns exactly that tree and the position just past the "
               "expression; no read at an index beyond the given length occurs for any input; the reader terminates with fuel length+1; an error status never comes "
-              "with a tree.  Tied to the C code by running all small trees x whitespace policies x hex cases, all short strings over a 10-character alphabet and all "
-              "truncations, each in an exact-size heap block under ASan/LSan.")
-LEVEL_NOTE = "Trusted: Lean kernel, axioms propext/Classical.choice/Quot.sound; hand-written model tied by the harness; leak freedom observed, not proved."
+              "with a tree; in the heap view (Model/SxHeap, proved to answer like the model above: heap_view_refines) everything the reader allocated is part of the "
+              "tree it returns or released before it returns (allocations_accounted), and an error leaves nothing allocated (error_frees_everything).  Tied to the C code by running all small trees x whitespace policies x hex cases, all short strings over a 10-character alphabet and all "
+              "truncations, each in an exact-size heap block under ASan/LSan with an allocation ledger (allocations made, released by the reader, released by sx_destroy compared with the heap view on every input).")
+LEVEL_NOTE = "Trusted: Lean kernel, axioms propext/Classical.choice/Quot.sound; hand-written model tied by the harness; sx_destroy itself is observed (ledger, LeakSanitizer), the reader's bookkeeping is proved."
 
 
 def theorem_for(d):
-    return "Ufw.Props.C20 (parse_render / bounds / error_no_tree)"
+    return "Ufw.Props.C20 (parse_rendering / no_outside_read / error_no_tree / allocations_accounted)"
 
 
 SYMS = ["a", "b-1", "foo", "+", "x", "F", "A1"]
